@@ -184,7 +184,9 @@ def compareModel (c : Case) (withRanges : Bool) : Verdict :=
     if c.outcome.startsWith "panic" && cr != .outOfFuel then .ok
     else .mismatch "outcome" s!"model {crashName cr} vs go {c.outcome} ep={c.ep} u16={c.u16} src={srcHex}"
   | .ok m =>
-    if c.outcome != "ok" then
+    if !m.disciplined then
+      .mismatch "reader-discipline" s!"the model read or replayed outside the discipline reader_inv assumes ep={c.ep} src={srcHex}"
+    else if c.outcome != "ok" then
       if c.outcome.startsWith "panic" then .mismatch "outcome" s!"model ok vs go {c.outcome} ep={c.ep} src={srcHex}"
       else .ok   -- timeout: reported by the Spec side
     else
